@@ -80,9 +80,8 @@ void CompositeAction::onReset() {
 }
 
 void CompositeAction::onFinished(bool is_succ, const Reason &why, const Trace &trace) {
-    //! 有可能不是child_自然结束产生的finish
-    stopCurrAction();
-
+    //! 有可能不是child_自然结束产生的finish：SerialAssembleAction::onFinished() 会停止当前子动作。
+    //! 这里不能再先停一次：子动作的 final 回调里若 reset() 并重新 start() 了本动作，第二次停止会停掉新一轮的子动作
     SerialAssembleAction::onFinished(is_succ, why, trace);
 }
 
